@@ -18,10 +18,23 @@ Checks                                                                          
     any other exception                                                                             [blocked-raises]
  fastcc
   * reactions of the returned model == the non-blocked reactions of the input
-      [fastcc-keeps-blocked; fastcc-drops-reversible when every wrongly removed reaction has lb < 0 < ub, else fastcc-drops-unblocked]
+      [per reaction: fastcc-keeps-blocked; fastcc-drops-reversible when the wrongly removed reaction has lb < 0 < ub, else
+       fastcc-drops-unblocked]
   * every kept reaction has the input's stoichiometry, bounds and gene rule                         [fastcc-changed-reaction]
   * no reaction of the returned model is blocked in the returned model (exact)                      [fastcc-result-has-blocked]
   * no exception                                                                                    [fastcc-raises]
+Structure (known-finding protocol)
+ * seed-dependent part (models drawn from the `seed` argument): find_blocked_reactions in every configuration on models
+   without an unbounded flux ray; fastcc with every check except "a reversible reaction that can carry flux was removed".
+   This part is clean on the current tree for every seed.
+ * fixed part (constant internal seeds, independent of `seed`; quick = prefix of thorough): the two sub-checks in which the
+   open finding classes can fire —
+     fastcc exactness on FASTCC-fixed models           witness  "fastcc-fixed#<index>:<reaction id>"
+     find_blocked_reactions on infinite-bound models   witness  "blocked-fixed#<index>:open_exchanges=<bool>"
+   every failing witness is reported (no cap).  Cases whose fastcc outcome depends on the iteration order of Python sets of
+   Reaction objects (identity hashes, i.e. memory addresses: fastcc builds its LP in `list(set(...))` order) are excluded from
+   the fixed list: FASTCC_ORDER_DEPENDENT, determined offline by running every case under 12 salted deterministic hash
+   functions and 6 unpatched runs (see NOTES_C19.md).
 Domain: every bound pair contains zero (the statement's quantifier); dead ends, blocked branches, isolated cycles
 (feasible and orientation-blocked), duplicates, antiparallel pairs, sinks, reversible / irreversible mixes, (0,0) bounds,
 small capacities (|bound| = 1), a minority of models with infinite bounds.
@@ -37,6 +50,10 @@ from bcc import c19_gen as G
 
 KNOWN_KEYS = set()
 INF = float("inf")
+FIXED_SEED_FASTCC = 19001
+FIXED_SEED_BLOCKED = 19002
+# indices of FASTCC-fixed cases whose outcome depends on set iteration order (see module docstring); never run
+FASTCC_ORDER_DEPENDENT = frozenset()
 
 
 def _ids(xs):
@@ -62,7 +79,7 @@ def exact_blocked(model, open_exchanges=False, halfspace=False):
 
 
 def check_blocked(model, cfg, cache=None):
-    """cfg: dict(open_exchanges, rl ('none'|'objects'|'ids'), rids, processes)"""
+    """cfg: dict(open_exchanges, rl ('none'|'objects'|'ids'), rids, processes) -> (list of (key, text, detail), info)"""
     from cobra.exceptions import OptimizationError
     from cobra.flux_analysis import find_blocked_reactions
     U.quiet()
@@ -71,8 +88,8 @@ def check_blocked(model, cfg, cache=None):
     tag = (f"find_blocked_reactions(open_exchanges={cfg['open_exchanges']}, reaction_list={cfg['rl']}"
            f"{'' if cfg['rids'] is None else cfg['rids']}, processes={cfg['processes']})")
 
-    def bad(key, text):
-        out.append((key, f"{tag}: {text}"))
+    def bad(key, text, detail=""):
+        out.append((key, f"{tag}: {text}", detail))
 
     oe = cfg["open_exchanges"]
     if ("pure", oe) not in cache:
@@ -90,20 +107,20 @@ def check_blocked(model, cfg, cache=None):
             bad("blocked-raises-unbounded", f"raised {type(e).__name__}({e}); the model has an unbounded flux ray, the blocked set "
                                            f"{sorted(want)} is nevertheless well defined")
         else:
-            bad("blocked-raises", f"raised {type(e).__name__}({e})")
+            bad("blocked-raises", f"raised {type(e).__name__}({e})", "raises")
         info["raised"] = True
         return out, info
     except Exception as e:  # noqa
         if cfg["rl"] == "ids" and isinstance(e, AttributeError):
             bad("blocked-reaction-list-ids", f"raised {type(e).__name__}: {e} — a reaction_list of identifiers (documented: "
-                                             f"'list of cobra.Reaction or str') is not accepted; expected result {sorted(want)}")
+                                             f"'list of cobra.Reaction or str') is not accepted; expected result {sorted(want)}", "ids")
         else:
-            bad("blocked-raises", f"raised {type(e).__name__}: {e}")
+            bad("blocked-raises", f"raised {type(e).__name__}: {e}", "raises")
         info["raised"] = True
         return out, info
     got_ids = _ids(got)
     if len(set(got_ids)) != len(got_ids):
-        bad("blocked-set", f"duplicates in the result {got_ids}")
+        bad("blocked-set", f"duplicates in the result {got_ids}", "duplicates")
     if set(got_ids) != want:
         if ("half", oe) not in cache:
             cache[("half", oe)] = exact_blocked(model, oe, True)
@@ -115,21 +132,25 @@ def check_blocked(model, cfg, cache=None):
             obj = {r.id: v for r, v in linear_reaction_coefficients(model).items()}
             bad("blocked-objective-halfspace",
                 f"returned {sorted(got_ids)}, exactly blocked {sorted(want)}; {extra} can carry flux (exact ranges {detail}) but only "
-                f"where the objective {obj} ({model.objective_direction}) is on the wrong side of 0, which FVA at fraction 0 excludes")
+                f"where the objective {obj} ({model.objective_direction}) is on the wrong side of 0, which FVA at fraction 0 excludes",
+                "set")
         else:
             bad("blocked-set", f"returned {sorted(got_ids)}, exactly blocked {sorted(want)}: wrongly listed {extra}, missed {missing}; "
-                               f"exact ranges {detail}")
+                               f"exact ranges {detail}", "set")
     return out, info
 
 
-def check_fastcc(model, cache=None):
+def check_fastcc(model, cache=None, mode="exact"):
+    """mode 'exact': every check; 'residual': everything except removed reversible reactions (the open finding class
+    fastcc-drops-reversible, which is matched witness by witness on the fixed list only).
+    -> (list of (key, text, detail), info)"""
     from cobra.flux_analysis import fastcc
     U.quiet()
     cache = {} if cache is None else cache
     out = []
 
-    def bad(key, text):
-        out.append((key, f"fastcc: {text}"))
+    def bad(key, text, detail=""):
+        out.append((key, f"fastcc: {text}", detail))
 
     if ("pure", False) not in cache:
         cache[("pure", False)] = exact_blocked(model, False, False)
@@ -142,32 +163,33 @@ def check_fastcc(model, cache=None):
     try:
         cm = fastcc(model)
     except Exception as e:  # noqa
-        bad("fastcc-raises", f"raised {type(e).__name__}: {e}")
+        bad("fastcc-raises", f"raised {type(e).__name__}: {e}", "raises")
         info["raised"] = True
         return out, info
     got = [r.id for r in cm.reactions]
-    kept_blocked = sorted(set(got) & blocked)
-    dropped = sorted(set(want) - set(got))
-    if kept_blocked:
-        bad("fastcc-keeps-blocked", f"the returned model contains {kept_blocked}, blocked in the input (exact range [0,0]); "
-                                    f"kept {sorted(got)}, non-blocked {sorted(want)}")
-    if dropped:
-        all_rev = all(before[r][1][0] < 0 < before[r][1][1] for r in dropped)
-        bad("fastcc-drops-reversible" if all_rev else "fastcc-drops-unblocked", f"the returned model lacks {dropped}, which can carry flux in the input: exact ranges "
-                                      f"{ {r: tuple(float(x) for x in ranges[r]) for r in dropped[:4]} }; kept {sorted(got)}")
-    unknown = sorted(set(got) - set(all_ids))
-    if unknown:
-        bad("fastcc-changed-reaction", f"the returned model has reactions {unknown} that the input does not have")
+    for r in sorted(set(got) & blocked):
+        bad("fastcc-keeps-blocked", f"the returned model contains {r}, blocked in the input (exact range [0,0]); "
+                                    f"kept {sorted(got)}, non-blocked {sorted(want)}", r)
+    for r in sorted(set(want) - set(got)):
+        rev = before[r][1][0] < 0 < before[r][1][1]
+        if rev and mode == "residual":
+            info["reversible_dropped"] = info.get("reversible_dropped", 0) + 1
+            continue
+        bad("fastcc-drops-reversible" if rev else "fastcc-drops-unblocked",
+            f"the returned model lacks {r} (bounds {before[r][1]}), which can carry flux in the input: exact range "
+            f"{tuple(float(x) for x in ranges[r])}; kept {sorted(got)}", r)
+    for r in sorted(set(got) - set(all_ids)):
+        bad("fastcc-changed-reaction", f"the returned model has a reaction {r} that the input does not have", r)
     for r in cm.reactions:
         if r.id not in before:
             continue
         now = ({m.id: float(k) for m, k in r._metabolites.items()}, (float(r._lower_bound), float(r._upper_bound)), r.gene_reaction_rule)
         if now != before[r.id]:
-            bad("fastcc-changed-reaction", f"{r.id}: {before[r.id]} -> {now}")
+            bad("fastcc-changed-reaction", f"{r.id}: {before[r.id]} -> {now}", r.id)
     if len(cm.reactions):
         b2, _, _ = exact_blocked(cm, False, False)
-        if b2:
-            bad("fastcc-result-has-blocked", f"in the returned model (reactions {sorted(got)}) {sorted(b2)} are blocked")
+        for r in sorted(b2):
+            bad("fastcc-result-has-blocked", f"in the returned model (reactions {sorted(got)}) {r} is blocked", r + ":in-result")
     return out, info
 
 
@@ -184,34 +206,86 @@ def corner_models():
     yield lc(2, objective="EX_m0", direction="max")                      # reversible objective reaction: half space matters
     yield lc(2, reverse_exchange=True)
     yield lc(2, bounds={"R0": (0.0, 1.0)})
-    yield lc(2, bounds={"EX_m0": (-INF, 1000.0), "R0": (0.0, INF), "R1": (0.0, INF), "EX_out": (0.0, INF)})
 
 
-def _make_models(kind, rng, n, tier):
-    if kind == "corner":
-        return list(corner_models())
-    ms = []
-    for _ in range(n):
-        x = rng.random()
-        if kind == "inf":
-            if x < 0.5:
-                ms.append(G.structured_model(rng, n_core=rng.randint(2, 3), n_conv=rng.randint(1, 3), bounds=G.ZERO_BOUNDS_INF))
-            else:
-                ms.append(gen.random_model(rng, bounds=G.ZERO_BOUNDS_INF, with_genes=True))
-        elif x < 0.65:
-            big = tier == "thorough" and rng.random() < 0.3
-            ms.append(G.structured_model(rng, n_core=rng.randint(2, 4 if big else 3), n_conv=rng.randint(1, 4 if big else 3)))
-        else:
-            ms.append(gen.random_model(rng, bounds=G.ZERO_BOUNDS, with_genes=True))
-    return ms
+def _zero_model(rng, big=False):
+    if rng.random() < 0.65:
+        return G.structured_model(rng, n_core=rng.randint(2, 4 if big else 3), n_conv=rng.randint(1, 4 if big else 3))
+    return gen.random_model(rng, bounds=G.ZERO_BOUNDS, with_genes=True)
+
+
+def _inf_model(rng):
+    if rng.random() < 0.5:
+        return G.structured_model(rng, n_core=rng.randint(2, 3), n_conv=rng.randint(1, 3), bounds=G.ZERO_BOUNDS_INF)
+    return gen.random_model(rng, bounds=G.ZERO_BOUNDS_INF, with_genes=True)
+
+
+def fixed_fastcc_cases(n):
+    """seed-independent: the corner models, then zero-bounded models from a constant seed; a prefix for smaller n"""
+    U.quiet()
+    rng = random.Random(FIXED_SEED_FASTCC)
+    out = [U.describe(m) for m in corner_models()]
+    while len(out) < n:
+        out.append(U.describe(_zero_model(rng)))
+    return out[:n]
+
+
+def fixed_blocked_cases(n):
+    """seed-independent: models with infinite bounds from a constant seed (first: the unbounded linear chain)"""
+    U.quiet()
+    rng = random.Random(FIXED_SEED_BLOCKED)
+    out = [U.describe(gen.linear_chain(2, bounds={"EX_m0": (-INF, 1000.0), "R0": (0.0, INF), "R1": (0.0, INF), "EX_out": (0.0, INF)}))]
+    while len(out) < n:
+        out.append(U.describe(_inf_model(rng)))
+    return out[:n]
+
+
+def _new_res():
+    return {"evals": 0, "sigs": {}, "fails": [], "samples": [], "fastcc": 0, "blocked_calls": 0, "skipped_ray": 0,
+            "reversible_dropped_ignored": 0}
+
+
+def _fixed_task(task):
+    """(kind, index, desc): one fixed case; every failure carries its witness id and is kept"""
+    kind, i, desc = task
+    U.quiet()
+    res = _new_res()
+    if kind == "fastcc":
+        try:
+            fails, info = check_fastcc(U.rebuild(desc), None, "exact")
+        except Exception as e:  # noqa
+            fails, info = [("driver-error", f"check raised {e!r}", "error")], {}
+        res["evals"] += 1
+        res["fastcc"] += 1
+        res["sigs"][("fastcc-fixed", i)] = bool(info.get("nontrivial")) and not info.get("raised")
+        for k, text, detail in fails:
+            w = f"fastcc-fixed#{i:03d}:{detail}"
+            res["fails"].append((k, text, {"model": desc, "what": "fastcc", "key": k, "witness": w, "detail": detail}, 0, w, True))
+    else:
+        cache = {}
+        for oe in (False, True):
+            cfg = dict(open_exchanges=oe, rl="none", rids=None, processes=1)
+            try:
+                fails, info = check_blocked(U.rebuild(desc), cfg, cache)
+            except Exception as e:  # noqa
+                fails, info = [("driver-error", f"check raised {e!r}", "error")], {}
+            res["evals"] += 1
+            res["blocked_calls"] += 1
+            res["sigs"][("blocked-fixed", i, oe)] = bool(info.get("nontrivial")) and not info.get("raised")
+            for k, text, detail in fails:
+                w = f"blocked-fixed#{i:03d}:open_exchanges={oe}" + (f":{detail}" if detail else "")
+                res["fails"].append((k, text, {"model": desc, "what": "blocked", "cfg": cfg, "key": k, "witness": w}, 0, w, True))
+    return res
 
 
 def _task(task):
+    """seed-dependent part"""
     kind, seed, idx, n, tier = task
     U.quiet()
-    rng = random.Random(seed * 1000003 + idx * 11 + {"corner": 1, "zero": 2, "inf": 3}[kind])
-    res = {"evals": 0, "sigs": {}, "fails": [], "samples": [], "fastcc": 0, "blocked_calls": 0, "features": {}}
-    for m in _make_models(kind, rng, n, tier):
+    rng = random.Random(seed * 1000003 + idx * 11 + {"zero": 2, "inf": 3}[kind])
+    res = _new_res()
+    for j in range(n):
+        m = _inf_model(rng) if kind == "inf" else _zero_model(rng, big=(tier == "thorough" and rng.random() < 0.3))
         desc = U.describe(m)
         sig = hash((U.signature(m), tuple(sorted(e.id for e in m.exchanges))))
         all_ids = [r.id for r in m.reactions]
@@ -223,13 +297,20 @@ def _task(task):
         if rng.random() < 0.3:
             cfgs.append(dict(open_exchanges=rng.random() < 0.5, rl="none", rids=None, processes=2))
         cache = {}
-        for cfg in cfgs + ["fastcc"]:
+        if kind == "inf":
+            # an unbounded flux ray is the input class of the open finding blocked-raises-unbounded: fixed list only
+            if exact_blocked(m, False, False)[1] or exact_blocked(m, True, False)[1]:
+                res["skipped_ray"] += 1
+                continue
+        for c, cfg in enumerate(cfgs + (["fastcc"] if kind == "zero" else [])):
             mm = U.rebuild(desc)
+            w = f"seed{seed}:{kind}#{idx}.{j}.{c}"
             try:
                 if cfg == "fastcc":
-                    fails, info = check_fastcc(mm, cache)
+                    fails, info = check_fastcc(mm, cache, "residual")
                     res["fastcc"] += 1
-                    payload = {"model": desc, "what": "fastcc"}
+                    res["reversible_dropped_ignored"] += info.get("reversible_dropped", 0)
+                    payload = {"model": desc, "what": "fastcc", "mode": "residual"}
                     key = (sig, "fastcc")
                 else:
                     fails, info = check_blocked(mm, cfg, cache)
@@ -238,20 +319,21 @@ def _task(task):
                     key = (sig, cfg["open_exchanges"], cfg["rl"], tuple(cfg["rids"] or ()), cfg["processes"])
             except Exception as e:  # noqa
                 import traceback
-                fails, info = [("driver-error", f"check raised {e!r}: {traceback.format_exc()[-500:]}")], {}
+                fails, info = [("driver-error", f"check raised {e!r}: {traceback.format_exc()[-500:]}", "error")], {}
                 payload, key = {"model": desc, "what": "fastcc" if cfg == "fastcc" else "blocked", "cfg": None if cfg == "fastcc" else cfg}, (sig, "err")
             res["evals"] += 1
             res["sigs"][key] = bool(info.get("nontrivial")) and not info.get("raised")
-            for k, text in fails:
-                res["fails"].append((k, text, dict(payload, key=k), U.size_of(desc)))
+            for k, text, detail in fails:
+                ww = w + (f":{detail}" if detail else "")
+                res["fails"].append((k, text, dict(payload, key=k, witness=ww), U.size_of(desc), ww, False))
             if not res["samples"] and info.get("nontrivial") and not fails and cfg != "fastcc":
                 res["samples"].append(dict(payload, blocked=info.get("n_blocked")))
     return res
 
 
 TIERS = {
-    "quick": {"zero_chunks": 110, "zero_n": 2, "inf_chunks": 16, "inf_n": 2},
-    "thorough": {"zero_chunks": 400, "zero_n": 8, "inf_chunks": 80, "inf_n": 5},
+    "quick": {"zero_chunks": 90, "zero_n": 2, "inf_chunks": 12, "inf_n": 2, "fixed_fastcc": 160, "fixed_blocked": 40},
+    "thorough": {"zero_chunks": 400, "zero_n": 6, "inf_chunks": 80, "inf_n": 4, "fixed_fastcc": 800, "fixed_blocked": 200},
 }
 
 
@@ -259,46 +341,61 @@ def run(tier, seed):
     t0 = time.time()
     U.quiet()
     cfg = TIERS[tier]
-    tasks = [("corner", seed, 0, 0, tier)]
-    tasks += [("zero", seed, i, cfg["zero_n"], tier) for i in range(cfg["zero_chunks"])]
+    ftasks = [("fastcc", i, d) for i, d in enumerate(fixed_fastcc_cases(cfg["fixed_fastcc"])) if i not in FASTCC_ORDER_DEPENDENT]
+    ftasks += [("blocked", i, d) for i, d in enumerate(fixed_blocked_cases(cfg["fixed_blocked"]))]
+    tasks = [("zero", seed, i, cfg["zero_n"], tier) for i in range(cfg["zero_chunks"])]
     tasks += [("inf", seed, i, cfg["inf_n"], tier) for i in range(cfg["inf_chunks"])]
-    results = U.run_pool(_task, tasks, nested=True)
+    n_fixed = len(ftasks)
+    results = U.run_pool(_dispatch, [("fixed", t) for t in ftasks] + [("seed", t) for t in tasks], nested=True)
     F = U.Failures(per_key=2)
-    sigs, samples, evals, fastcc_n, blocked_n = {}, [], 0, 0, 0
-    for r in results:
-        evals += r["evals"]
-        fastcc_n += r["fastcc"]
-        blocked_n += r["blocked_calls"]
+    sigs, samples = {}, []
+    tot = {k: 0 for k in ("evals", "fastcc", "blocked_calls", "skipped_ray", "reversible_dropped_ignored")}
+    fixed_evals = 0
+    for n, r in enumerate(results):
+        for k in tot:
+            tot[k] += r[k]
+        if n < n_fixed:
+            fixed_evals += r["evals"]
         for k, v in r["sigs"].items():
             sigs[k] = sigs.get(k, False) or v
         F.merge(r["fails"])
         samples += r["samples"]
     return {
-        "evaluations": evals,
+        "evaluations": tot["evals"],
         "distinct_nontrivial": sum(1 for v in sigs.values() if v),
         "rule": "evaluation = one find_blocked_reactions call (model, open_exchanges, reaction_list None/objects/ids, processes) or one "
                 "fastcc call (model), compared with the exact set {r | exact range of v_r over {S v = 0, lb <= v <= ub} is [0,0]}. "
-                "distinct = distinct (model structure incl. exchange set, call configuration); non-trivial = the call returned and the "
-                "requested reactions contain both blocked and non-blocked ones",
-        "bounds": {"tier": tier, "seed": seed, "models": 11 + cfg["zero_chunks"] * cfg["zero_n"] + cfg["inf_chunks"] * cfg["inf_n"],
-                   "models_with_infinite_bounds_family": cfg["inf_chunks"] * cfg["inf_n"], "find_blocked_reactions_calls": blocked_n,
-                   "fastcc_calls": fastcc_n, "generators": "bcc.c19_gen.structured_model (<=4 core metabolites, planted dead ends / "
-                   "branches / cycles / duplicates / antiparallel pairs / sinks), bcc.gen.random_model (<=4 metabolites, <=5 internal "
-                   "reactions) with zero-containing bounds, 11 corner models", "processes": [1, 2],
-                   "wall_seconds": round(time.time() - t0, 1)},
+                "fixed part: seed-independent case lists (witness ids), seed-dependent part: models drawn from the seed. "
+                "distinct = distinct (model structure incl. exchange set, call configuration) resp. fixed case; non-trivial = the call "
+                "returned and the requested reactions contain both blocked and non-blocked ones",
+        "bounds": {"tier": tier, "seed": seed, "fixed_fastcc_cases": cfg["fixed_fastcc"] - len([i for i in FASTCC_ORDER_DEPENDENT if i < cfg["fixed_fastcc"]]),
+                   "fixed_fastcc_cases_excluded_order_dependent": sorted(i for i in FASTCC_ORDER_DEPENDENT if i < cfg["fixed_fastcc"]),
+                   "fixed_blocked_cases_infinite_bounds": cfg["fixed_blocked"], "fixed_part_calls": fixed_evals,
+                   "seed_models": cfg["zero_chunks"] * cfg["zero_n"] + cfg["inf_chunks"] * cfg["inf_n"],
+                   "seed_models_skipped_unbounded_ray": tot["skipped_ray"],
+                   "seed_fastcc_reversible_removals_left_to_the_fixed_list": tot["reversible_dropped_ignored"],
+                   "find_blocked_reactions_calls": tot["blocked_calls"], "fastcc_calls": tot["fastcc"],
+                   "generators": "bcc.c19_gen.structured_model (<=4 core metabolites, planted dead ends / branches / cycles / duplicates / "
+                   "antiparallel pairs / sinks), bcc.gen.random_model (<=4 metabolites, <=5 internal reactions) with zero-containing "
+                   "bounds, 10 corner models", "processes": [1, 2], "wall_seconds": round(time.time() - t0, 1)},
         "exhaustive": False,
         "samples": samples[:2],
         "failures": F.as_list(),
+        "witnesses": F.witnesses(),
     }
+
+
+def _dispatch(t):
+    return _fixed_task(t[1]) if t[0] == "fixed" else _task(t[1])
 
 
 def replay(payload_replay):
     U.quiet()
     m = U.rebuild(payload_replay["model"])
     if payload_replay["what"] == "fastcc":
-        fails, _ = check_fastcc(m)
+        fails, _ = check_fastcc(m, None, payload_replay.get("mode", "exact"))
     else:
         fails, _ = check_blocked(m, payload_replay["cfg"])
-    key = payload_replay.get("key")
-    hits = [t for k, t in fails if key is None or k == key]
+    key, detail = payload_replay.get("key"), payload_replay.get("detail")
+    hits = [t for k, t, d in fails if (key is None or k == key) and (detail is None or d == detail)]
     return "; ".join(hits[:5]) if hits else None
